@@ -82,15 +82,15 @@ PROPS = {
                  covers=["delete-error", "delete-unknown-applied", "delete-unknown-lost", "compactor-dies", "get-present", "get-absent", "done"]),
             dict(run=B + "VerifC07Compact", name="C07_partitioned", quick=dict(ops=2, keys=1, val9=0, delfaults=0, borders=1, after=0), thorough=dict(ops=2, keys=2, val9=0, delfaults=1, borders=2, after=0),
                  covers=["partitioned", "border-inside-versions", "border-on-index-record", "get-present", "get-absent", "done"]),
-            dict(run=B + "VerifC07Borders", quick=dict(maxskip=2, keylen=4), thorough=dict(maxskip=2, keylen=6), covers=["with-skipped", "done"]),
+            dict(run=B + "VerifC07Borders", quick=dict(maxskip=2, keylen=4), thorough=dict(maxskip=3, keylen=6), covers=["with-skipped", "done"]),
             dict(run=B + "VerifC07Race", quick=dict(preempt=1), thorough=dict(preempt=2), covers=["racing-write-succeeded", "get-present", "get-absent", "done"], stress=20),
             dict(run=B + "VerifC07Interleave", quick=dict(points=8), thorough=dict(points=12), covers=["write-inside-compaction", "write-after-compaction", "interleaved-write-succeeded", "done"]),
             dict(run=B + "VerifInductiveStep", name="C07_inductive", quick=dict(val9=0, maxversions=2, stepkind=2), thorough=dict(val9=0, maxversions=3, stepkind=2),
                  covers=["compacted", "get-present", "get-absent", "done"]),
         ],
         bounds=dict(quick="histories of 2 writes on 1 key (multi-version, tombstones, re-created), compaction at every revision R in (base, current], one fault (error / outcome unknown and applied / outcome unknown and not applied / compactor dies) at any compaction delete, reads at every R' >= R and latest, one further write; compaction racing one symbolic write (create / update / delete) on a key with a tombstone, two live versions or a re-created key, interleaved at the store operations, revision dealing and request boundaries with <= 1 scheduling delay; compaction ranges for prefix /r with 0..2 skipped prefixes of symbolic bytes (conditions of KubeBrainOption.Validate assumed) against a symbolic raw key of 2..5 bytes; a whole write (any kind, symbolic expectation) placed before any of the first 8 store operations of the compaction or after it (3 key histories); one compaction at any revision from an arbitrary invariant-satisfying state of one key (0..2 versions), reads from the floor up unchanged, invariant re-established; compaction (no fault) on an engine that splits the key space at one border — an index record or any internal key inside a key's versions — after histories of 2 writes",
-                    thorough="histories of 3 writes, up to 2 faults; two borders in any order with one fault over 2 keys; the race with <= 2 scheduling deviations; 12 positions for the whole write; skipped prefixes of up to 6 bytes; the inductive compaction step over 0..3 versions"),
-        outside="time-based expiry (C17); more than one concurrent writer during the scan; more than 2 skipped prefixes or skipped prefixes longer than <prefix>+3 bytes",
+                    thorough="histories of 3 writes, up to 2 faults; two borders in any order with one fault over 2 keys; the race with <= 2 scheduling deviations; 12 positions for the whole write; up to 3 skipped prefixes against raw keys of up to 7 bytes; the inductive compaction step over 0..3 versions"),
+        outside="time-based expiry (C17); more than one concurrent writer during the scan; more than 2 (thorough: 3) skipped prefixes or skipped prefixes longer than <prefix>+3 bytes",
     ),
     "C08": dict(
         harnesses=[
